@@ -218,6 +218,13 @@ impl View {
     }
 }
 
+/// The three image paths of a run. Two of them share their file stem and differ only in the
+/// extension, one of which is `.tmp`; the third is long and not ASCII (a multi-byte character
+/// straddles every plausible byte offset counted from its end).
 pub fn path_name(p: usize) -> String {
-    format!("/sim/image-{p}.sodg")
+    match p {
+        0 => "/sim/image-work.sodg".to_string(),
+        1 => "/sim/image-work.tmp".to_string(),
+        _ => "/sim/image-図aя図bя図cя図dя図eя図fя図gя図hя図iя図jя図kя図lяxy.sodg".to_string(),
+    }
 }
